@@ -284,7 +284,12 @@ func execC19(c Case) string {
 		} else if err != nil {
 			return "err"
 		}
-		return "ok:" + idsOf(r.Coins())
+		// the returned set's own bookkeeping (count and running totals) belongs to the observation too
+		tot := "?"
+		if cs, ok := r.(*coinset.CoinSet); ok {
+			tot = itoa(cs.Num()) + "/" + i64s(int64(cs.TotalValue())) + "/" + i64s(cs.TotalValueAge())
+		}
+		return "ok:" + idsOf(r.Coins()) + " " + tot
 	case "simple": // simple <values> <index> <confs>: SimpleCoin reads its transaction
 		tx := wire.NewMsgTx(1)
 		for j, v := range splitOr(a[0], ",") {
